@@ -51,13 +51,11 @@ def IFNA : Builtin
   | [v, _] => .ok v
   | _ => .error .error
 
-/-- the `for i in range(0, argc, 2)` scan of SWITCH; `none` = no case matched.
-    With an odd `argc` the last element is the default and `args[i+1]` for it would be out of
-    range — the loop reaches it only if it compares equal to the target: IndexError. -/
-def switchScan (target : Value) : List Value → Option (Except Err Value)
-  | [] => none
-  | [c] => if pyEqValue target c then some (.error .error) else none
-  | c :: r :: rest => if pyEqValue target c then some (.ok r) else switchScan target rest
+/-- the `for i in range(0, argc - 1, 2)` scan of SWITCH over the complete (case, result) pairs;
+    `none` = no case matched.  A trailing unpaired element (the default) is never compared. -/
+def switchScan (target : Value) : List Value → Option Value
+  | c :: r :: rest => if pyEqValue target c then some r else switchScan target rest
+  | _ => none
 
 /-- SWITCH(target, *args) -/
 def SWITCH : Builtin
@@ -66,7 +64,7 @@ def SWITCH : Builtin
   | target :: args =>
     if args.length ≤ 1 then .ok (.err .na) else
     match switchScan target args with
-    | some r => r
+    | some r => .ok r
     | none => if args.length % 2 = 0 then .ok (.err .na) else .ok (args.getLast?.getD .blank)
 
 /-- the `zip(args[::2], args[1::2])` scan of IFS -/
